@@ -13,7 +13,58 @@ open FuelVerif FuelVerif.SmtStore FuelVerif.SmtBytes FuelVerif.Gen.Sparse FuelVe
 
 abbrev T := Tree Key32 Hash32
 
-variable (H : Bytes → Bytes) (hok : HashOK H)
+/-- `u` is a non-empty subtree of `t` -/
+def IsSub (u : T) : T → Prop
+  | .empty => False
+  | .leaf k v => u = .leaf k v
+  | .node l r => u = .node l r ∨ IsSub u l ∨ IsSub u r
+
+theorem IsSub.ne_empty {u : T} : ∀ {t : T}, IsSub u t → u ≠ .empty
+  | .leaf _ _, h => by rw [h]; exact fun e => nomatch e
+  | .node l r, h => by
+    rcases h with h | h | h
+    · rw [h]; exact fun e => nomatch e
+    · exact IsSub.ne_empty h
+    · exact IsSub.ne_empty h
+
+theorem IsSub.refl {u : T} (h : u ≠ .empty) : IsSub u u := by
+  cases u with
+  | empty => exact absurd rfl h
+  | leaf k v => rfl
+  | node l r => exact .inl rfl
+
+theorem IsSub.trans {u v : T} : ∀ {t : T}, IsSub u v → IsSub v t → IsSub u t
+  | .leaf _ _, h1, h2 => by rw [h2] at h1; exact h1
+  | .node l r, h1, h2 => by
+    rcases h2 with h2 | h2 | h2
+    · rw [h2] at h1; exact h1
+    · exact .inr (.inl (IsSub.trans h1 h2))
+    · exact .inr (.inr (IsSub.trans h1 h2))
+
+/-- **the hash assumption, relative to a class `U` of trees**: `H` has 32-byte output, and on the trees of `U`
+the tree hash is injective and never the zero sum. Unlike `HashOK` (injective on ALL 65-byte inputs, which no
+function with 32-byte output is) this is satisfiable: for the finitely many trees that occur in a concrete
+history it follows from the absence of a collision among the finitely many tagged inputs actually hashed
+(`Lemmas/SparseCollision.lean`: `hashOn_of_noCollision`). `HashOK H` gives it for `U = everything`
+(`HashOK.toOn`). -/
+structure HashOn (H : Bytes → Bytes) (U : T → Prop) : Prop where
+  len : ∀ x, (H x).length = keyBytes
+  inj : ∀ u v : T, U u → U v →
+    (u.hash (hashes32 H len)).val = (v.hash (hashes32 H len)).val → u = v
+  nz : ∀ u : T, U u → u ≠ .empty → (u.hash (hashes32 H len)).val ≠ zeroSum
+
+theorem _root_.FuelVerif.SmtBytes.HashOK.toOn {H : Bytes → Bytes} (hok : HashOK H) : HashOn H (fun _ => True) where
+  len := hok.len
+  inj := fun u v _ _ h => hash_injective (hashes32 H hok.len) (collisionFree_bytes H hok) u v (Subtype.ext h)
+  nz := by
+    have hcf := collisionFree_bytes H hok
+    intro u _ h e
+    cases u with
+    | empty => exact h rfl
+    | leaf k v => exact hcf.leaf_ne_zero k v (Subtype.ext e)
+    | node l r => exact hcf.node_ne_zero (l.hash _) (r.hash _) (Subtype.ext e)
+
+variable (H : Bytes → Bytes) {U : T → Prop} (hok : HashOn H U)
 
 /-- the hash constructors at 32-byte types -/
 abbrev PP : Hashes Key32 Hash32 Hash32 := hashes32 H hok.len
@@ -41,14 +92,8 @@ theorem nodeOf_hash (d : Nat) (t : T) : (nodeOf H hok d t).hash = hb H hok t := 
 theorem nodeOf_wf (d : Nat) (t : T) : (nodeOf H hok d t).Wf H := by
   cases t <;> simp [nodeOf, Node.Wf, calculateLeafHash, calculateNodeHash]
 
-/-- a non-empty subtree never hashes to the zero sum -/
-theorem hb_ne_zero {t : T} (h : t ≠ .empty) : hb H hok t ≠ zeroSum := by
-  have hcf := collisionFree_bytes H hok
-  intro e
-  cases t with
-  | empty => exact h rfl
-  | leaf k v => exact hcf.leaf_ne_zero k v (Subtype.ext e)
-  | node l r => exact hcf.node_ne_zero (l.hash _) (r.hash _) (Subtype.ext e)
+/-- a non-empty tree of `U` never hashes to the zero sum -/
+theorem hb_ne_zero {t : T} (hU : U t) (h : t ≠ .empty) : hb H hok t ≠ zeroSum := hok.nz t hU h
 
 variable {σ : Type} (S : StoreOps σ)
 
@@ -71,23 +116,26 @@ structure Rep (s : SMT σ) (t : T) : Prop where
   canon : Canon bit32 width 0 t
   root : s.root = nodeOf H hok 0 t
   stored : Stored H hok S s.storage 0 t
+  /-- every non-empty subtree of `t` is in the class on which the hash is collision-free -/
+  sub : ∀ u, IsSub u t → U u
 
 /-! ### `child` -/
 
-theorem child_rep {st : σ} {d : Nat} {l r : T} (hs : Stored H hok S st d (.node l r)) (right : Bool) :
+theorem child_rep {st : σ} {d : Nat} {l r : T} (hs : Stored H hok S st d (.node l r))
+    (hU : ∀ u, IsSub u (.node l r) → U u) (right : Bool) :
     child H S st (nodeOf H hok d (.node l r)) right =
       .ok (nodeOf H hok (d + 1) (if right then r else l)) := by
-  have hgen : ∀ c : T, Stored H hok S st (d + 1) c →
+  have hgen : ∀ c : T, (c ≠ .empty → U c) → Stored H hok S st (d + 1) c →
       (if hb H hok c = zeroSum then Except.ok Node.placeholder
        else match S.get st (hb H hok c) with
         | none => Except.error Err.ChildError
         | some p => match Node.ofPrim H p with
           | .ok c => .ok c
           | .error _ => .error .ChildError) = (.ok (nodeOf H hok (d + 1) c) : Except Err Node) := by
-    intro c hc
+    intro c hUc hc
     by_cases he : c = .empty
     · subst he; simp [hb_empty, nodeOf]
-    · simp only [hb_ne_zero H hok he, ↓reduceIte, Stored.top H hok S hc he]
+    · simp only [hb_ne_zero H hok (hUc he) he, ↓reduceIte, Stored.top H hok S hc he]
       rw [Node.ofPrim_toPrim H (nodeOf_wf H hok _ _)]
       cases c with
       | empty => exact absurd rfl he
@@ -101,10 +149,10 @@ theorem child_rep {st : σ} {d : Nat} {l r : T} (hs : Stored H hok S st d (.node
   cases right with
   | true =>
     simp only [hl, Bool.false_eq_true, ↓reduceIte, eHi]
-    exact hgen r hs.2.2
+    exact hgen r (fun he => hU r (.inr (.inr (IsSub.refl he)))) hs.2.2
   | false =>
     simp only [hl, Bool.false_eq_true, ↓reduceIte, eLo]
-    exact hgen l hs.2.1
+    exact hgen l (fun he => hU l (.inr (.inl (IsSub.refl he)))) hs.2.1
 
 /-! ### `path_set` -/
 
@@ -127,17 +175,17 @@ theorem nodeOf_isNode_empty (d : Nat) : (nodeOf H hok d .empty).isNode = false :
 
 theorem pathIter_rep (k : Key32) {st : σ} :
     ∀ (t : T) (d fuel : Nat) (side : Bytes), Canon bit32 width d t → Stored H hok S st d t →
-      d ≤ width → d + fuel > width →
+      (∀ u, IsSub u t → U u) → d ≤ width → d + fuel > width →
       pathIter H S st k.val fuel (nodeOf H hok d t) side d = .ok (pathItems H hok k d t side)
-  | .empty, d, fuel, side, _, _, hd, hf => by
+  | .empty, d, fuel, side, _, _, _, hd, hf => by
     cases fuel with
     | zero => omega
     | succ f => simp [pathIter, nodeOf_isNode_empty, pathItems]
-  | .leaf k' v', d, fuel, side, _, _, hd, hf => by
+  | .leaf k' v', d, fuel, side, _, _, _, hd, hf => by
     cases fuel with
     | zero => omega
     | succ f => simp [pathIter, nodeOf_isNode_leaf, pathItems]
-  | .node l r, d, fuel, side, hc, hs, hd, hf => by
+  | .node l r, d, fuel, side, hc, hs, hU, hd, hf => by
     obtain ⟨hdn, hl, hr, hsz, hcl, hcr⟩ := hc
     cases fuel with
     | zero => omega
@@ -148,7 +196,7 @@ theorem pathIter_rep (k : Key32) {st : σ} :
         rw [k.property]; have : width = 8 * keyBytes := by decide
         omega
       rw [getInstruction_some k.val d hk]
-      simp only [child_rep H hok S hs]
+      simp only [child_rep H hok S hs hU]
       have eHi : (nodeOf H hok d (Tree.node l r)).bytesHi = hb H hok r := rfl
       have eLo : (nodeOf H hok d (Tree.node l r)).bytesLo = hb H hok l := rfl
       unfold pathItems
@@ -156,11 +204,11 @@ theorem pathIter_rep (k : Key32) {st : σ} :
       | true =>
         have hb2 : bit32 k d = true := hb'
         simp only [↓reduceIte, eLo, hb2]
-        rw [pathIter_rep k r (d + 1) f _ hcr hs.2.2 (by omega) (by omega)]
+        rw [pathIter_rep k r (d + 1) f _ hcr hs.2.2 (fun u hu => hU u (.inr (.inr hu))) (by omega) (by omega)]
       | false =>
         have hb2 : bit32 k d = false := hb'
         simp only [Bool.false_eq_true, ↓reduceIte, eHi, hb2]
-        rw [pathIter_rep k l (d + 1) f _ hcl hs.2.1 (by omega) (by omega)]
+        rw [pathIter_rep k l (d + 1) f _ hcl hs.2.1 (fun u hu => hU u (.inr (.inl hu))) (by omega) (by omega)]
 
 /-- the path nodes leaf-to-root of the subtree `t` at depth `d` along `k` (terminal node first, the
 subtree's top node last) -/
@@ -204,7 +252,7 @@ theorem pathItems_snd (k : Key32) :
 /-- **`path_set` on a represented tree** returns the structural path -/
 theorem pathSet_rep {s : SMT σ} {t : T} (hr : Rep H hok S s t) (k : Key32) :
     SmtStore.pathSet H S s k.val = .ok (upNodes H hok k 0 t, upSides H hok k 0 t) := by
-  obtain ⟨hc, hroot, hst⟩ := hr
+  obtain ⟨hc, hroot, hst, hU⟩ := hr
   unfold SmtStore.pathSet
   rw [hroot]
   have hw : width = maxHeight := rfl
@@ -216,7 +264,7 @@ theorem pathSet_rep {s : SMT σ} {t : T} (hr : Rep H hok S s t) (k : Key32) :
   | node l r =>
     have hh : (nodeOf H hok 0 (Tree.node l r)).height = maxHeight := by simp [nodeOf, Node.height]
     simp only [hh, Nat.lt_irrefl, ↓reduceIte, Nat.sub_self, gt_iff_lt]
-    rw [pathIter_rep H hok S k (.node l r) 0 (maxHeight + 1) _ hc hst (Nat.zero_le _) (by rw [hw]; omega)]
+    rw [pathIter_rep H hok S k (.node l r) 0 (maxHeight + 1) _ hc hst hU (Nat.zero_le _) (by rw [hw]; omega)]
     simp only [pathItems_fst, pathItems_snd, List.dropLast_concat]
 
 theorem upSides_eq (k : Key32) :
@@ -280,21 +328,15 @@ theorem generateProof_rep {s : SMT σ} {t : T} (hr : Rep H hok S s t) (k : Key32
 
 /-- a represented state has its root persisted in the store (C13) -/
 theorem rep_rootPersisted {s : SMT σ} {t : T} (hr : Rep H hok S s t) : RootPersisted H S s := by
-  obtain ⟨_, hroot, hst⟩ := hr
+  obtain ⟨_, hroot, hst, hU⟩ := hr
   by_cases he : t = .empty
   · subst he; exact .inl hroot
   · right
     rw [hroot]
-    exact ⟨nodeOf_wf H hok 0 t, by rw [nodeOf_hash]; exact hb_ne_zero H hok he,
+    exact ⟨nodeOf_wf H hok 0 t, by rw [nodeOf_hash]; exact hb_ne_zero H hok (hU t (IsSub.refl he)) he,
       by rw [nodeOf_hash]; exact Stored.top H hok S hst he⟩
 
 /-! ### subtrees, hashes of subtrees, and the store -/
-
-/-- `u` is a non-empty subtree of `t` -/
-def IsSub (u : T) : T → Prop
-  | .empty => False
-  | .leaf k v => u = .leaf k v
-  | .node l r => u = .node l r ∨ IsSub u l ∨ IsSub u r
 
 /-- number of constructors -/
 def nodes : T → Nat
@@ -307,28 +349,6 @@ def AllKV (p : Key32 → Hash32 → Prop) : T → Prop
   | .empty => True
   | .leaf k v => p k v
   | .node l r => AllKV p l ∧ AllKV p r
-
-theorem IsSub.ne_empty {u : T} : ∀ {t : T}, IsSub u t → u ≠ .empty
-  | .leaf _ _, h => by rw [h]; exact fun e => nomatch e
-  | .node l r, h => by
-    rcases h with h | h | h
-    · rw [h]; exact fun e => nomatch e
-    · exact IsSub.ne_empty h
-    · exact IsSub.ne_empty h
-
-theorem IsSub.refl {u : T} (h : u ≠ .empty) : IsSub u u := by
-  cases u with
-  | empty => exact absurd rfl h
-  | leaf k v => rfl
-  | node l r => exact .inl rfl
-
-theorem IsSub.trans {u v : T} : ∀ {t : T}, IsSub u v → IsSub v t → IsSub u t
-  | .leaf _ _, h1, h2 => by rw [h2] at h1; exact h1
-  | .node l r, h1, h2 => by
-    rcases h2 with h2 | h2 | h2
-    · rw [h2] at h1; exact h1
-    · exact .inr (.inl (IsSub.trans h1 h2))
-    · exact .inr (.inr (IsSub.trans h1 h2))
 
 theorem IsSub.nodes_le {u : T} : ∀ {t : T}, IsSub u t → nodes u ≤ nodes t
   | .leaf _ _, h => by rw [h]; exact Nat.le_refl _
@@ -378,8 +398,29 @@ def hashesOf : T → List Bytes
   | .leaf k v => [hb H hok (.leaf k v)]
   | .node l r => hb H hok (.node l r) :: (hashesOf l ++ hashesOf r)
 
-theorem hb_injective {u v : T} (h : hb H hok u = hb H hok v) : u = v :=
-  hash_injective (PP H hok) (collisionFree_bytes H hok) u v (Subtype.ext h)
+theorem hb_injective {u v : T} (hu : U u) (hv : U v) (h : hb H hok u = hb H hok v) : u = v :=
+  hok.inj u v hu hv h
+
+/-- injectivity for "placeholder or subtree of a tree whose subtrees are in `U`" -/
+theorem hb_inj_sub {t1 t2 u v : T} (h1 : ∀ x, IsSub x t1 → U x) (h2 : ∀ x, IsSub x t2 → U x)
+    (hu : u = .empty ∨ IsSub u t1) (hv : v = .empty ∨ IsSub v t2) (h : hb H hok u = hb H hok v) : u = v := by
+  rcases hu with eu | hu <;> rcases hv with ev | hv
+  · rw [eu, ev]
+  · subst eu
+    exact absurd h.symm (hb_ne_zero H hok (h2 v hv) (IsSub.ne_empty hv))
+  · subst ev
+    exact absurd h (hb_ne_zero H hok (h1 u hu) (IsSub.ne_empty hu))
+  · exact hb_injective H hok (h1 u hu) (h2 v hv) h
+
+theorem child_left_sub (l r : T) : l = .empty ∨ IsSub l (.node l r) := by
+  by_cases e : l = .empty
+  · exact .inl e
+  · exact .inr (.inr (.inl (IsSub.refl e)))
+
+theorem child_right_sub (l r : T) : r = .empty ∨ IsSub r (.node l r) := by
+  by_cases e : r = .empty
+  · exact .inl e
+  · exact .inr (.inr (.inr (IsSub.refl e)))
 
 theorem mem_hashesOf {h : Bytes} : ∀ {t : T}, h ∈ hashesOf H hok t → ∃ u, IsSub u t ∧ hb H hok u = h
   | .empty, hm => by simp [hashesOf] at hm
@@ -394,10 +435,11 @@ theorem mem_hashesOf {h : Bytes} : ∀ {t : T}, h ∈ hashesOf H hok t → ∃ u
     · obtain ⟨u, hu, e⟩ := mem_hashesOf hm; exact ⟨u, .inr (.inr hu), e⟩
 
 /-- `hb x` is not the hash of a subtree of `t` when `x` is not a subtree of `t` -/
-theorem not_mem_hashesOf {x t : T} (h : ¬ IsSub x t) : hb H hok x ∉ hashesOf H hok t := by
+theorem not_mem_hashesOf {x t : T} (hx : U x) (ht : ∀ u, IsSub u t → U u) (h : ¬ IsSub x t) :
+    hb H hok x ∉ hashesOf H hok t := by
   intro hm
   obtain ⟨u, hu, e⟩ := mem_hashesOf H hok hm
-  rw [hb_injective H hok e] at hu
+  rw [hb_injective H hok (ht u hu) hx e] at hu
   exact h hu
 
 variable (laws : StoreLaws S)
